@@ -18,6 +18,13 @@ CHECKS = {
         note="Trusted: CPython ast, clang-14 JSON AST, sympy as normaliser, the translators in engine/symalg.py, interval semantics in engine/absint.py (rounding ignored except overflow/underflow/absorption thresholds).",
         ref="DESIGN.md §3 C10",
     ),
+    "C11": dict(
+        technique="static analysis: clang-JSON-to-sympy and ast-to-sympy translation of the 38+38 tetrahedron closed forms (equality as rational functions, sum rules by differentiation/cancellation), exhaustive evaluation of the literal C tetrahedra tables, abstract interpretation of the sorting network over the finite domain of 24 orderings, dispatch-table and case-split comparison, symbolic integration of the smearing kernels",
+        level="other",
+        text="Decides: C==Python for every closed form and for the (i,ci) dispatch and omega case split; sum_c I=1, sum_c J=1 (additivity of projected DOS), dn/dw=g, continuity and full normalisation of n; geometric validity of the 4x24 literal tetrahedra; correctness of sort_omegas on all strict orderings; unit integral of both smearing kernels; that every DOS path weights by multiplicity and divides by the grid size once. Does not decide non-negativity / [0,1] bounds (inequalities) or the run-time generated Python table.",
+        note="Trusted: clang-14 JSON AST (parsed with -DTHM_EPSILON=1e-10 as CMake does), CPython ast, sympy cancel/diff/integrate as normaliser, engine/symalg.py translators. Generic branch of _f (distinct vertex frequencies).",
+        ref="DESIGN.md §3 C11",
+    ),
     "C20": dict(
         technique="static analysis: source-to-sympy translation of the three equations of state and symbolic differentiation (12 defining-meaning obligations); open-term normal-form comparison of the QHA finite-difference, unit and PV formulas with the documented ones; dispatch/unpack-order table rules",
         level="proof",
